@@ -133,8 +133,10 @@ static std::string check_case(const std::vector<TextStr>& strs, const std::vecto
             return strf("r%zu buffer %zu: occurrence at offset %zu (len %d key %d) not reported", i, bi,
                         kv.first, kv.second.begin()->first, kv.second.begin()->second);
       }
+      // the verdict follows the reported list; a match that is the listed known finding (key outside
+      // the declared range) makes the rule true on the unchanged tree, which is the same root cause
       bool verdict = m->kind == 'M';
-      if (verdict != !A.empty())
+      if (verdict != (!A.empty() || extra_known > 0))
         return strf("r%zu buffer %zu: verdict %d but %zu occurrences", i, bi, (int) verdict, A.size());
     }
   }
